@@ -124,6 +124,9 @@ func runC11(c *Ctx) error {
 		{desc: "proto-upper-single", hdrs: []c11hdr{{"SEC-WEBSOCKET-PROTOCOL", true, "chat"}}},
 		{desc: "proto-empty", hdrs: []c11hdr{{"Sec-WebSocket-Protocol", true, ", ,"}, {"Connection", false, "close"}, {"Sec-WebSocket-Version", false, "8"}}},
 		{desc: "host", hdrs: []c11hdr{{"Host", false, "other.test"}, {"Sec-WebSocket-Key", false, "user-supplied"}, {"Upgrade", false, "h2c"}}},
+		{desc: "rbuf-8192", rbuf: 8192},
+		{desc: "rbuf-65536+pmd", pmd: true, rbuf: 65536},
+		{desc: "rbuf-4097", rbuf: 4097},
 	}
 	nRandom, nKeys := 1500, 2000
 	if !c.quick() {
